@@ -967,6 +967,9 @@ func (r *aRun) oracleC07(v *aView) {
 			}
 		}
 	}
+	if r.gaveUpConnecting {
+		r.note("C07", "not-accepting", "not-accepting", "a client could not connect to the syslog port for 100 simulated seconds although the agent was running: the listener no longer accepts")
+	}
 	if r.finalDeadlineHit {
 		r.note("C07", "wedged", "wedged", "the records of a new, clean connection were not delivered within the bound after the hostile phase: the agent is wedged")
 	}
